@@ -22,6 +22,23 @@ CLAIMS = {
         "callers of eval_block) lift the per-assignment contract to the whole history.",
    note="Trusted: pyvc encoding, z3; assumption A-C02 (no nested re-assignment of the same output during delivery); tuples contain "
         "event objects; iterator arguments (deprecated) excluded. Open known finding: InitAsync.init_regular drops on_output events."),
+ 'C09': dict(
+   text="Circuit.abort, SBlock.event (error classification), AddonAsync._task_monitor, ControlBlock._event_shutdown/_event_abort and "
+        "Circuit.is_ready are executed from the real AST: abort keeps the first error and cancels the task only then; event() aborts "
+        "exactly for exceptions raised inside a handler (not for EdzedUnknownEvent, not for call-level TypeErrors) and re-raises the "
+        "original; the task monitor aborts for errors and unexpected service exits but not for cancellation; write-once of "
+        "Circuit._error is a scan obligation (writer set, guarded store in run_forever) plus solver lemmas (not ready stays not ready).",
+   note="Trusted: pyvc encoding, z3, asyncio.Task.cancel/done, handler/coroutine interface contracts; traceback introspection "
+        "abstracted to one boolean; A-cancel. Unclaimed in this revision: what run_forever/run/shutdown re-raise (coroutine bodies)."),
+ 'C11': dict(
+   text="SBlock.event, the _enable_event context manager (__enter__/__exit__), SBlock._event, Circuit.abort, Event.send and "
+        "OutputFunc._event_put are executed from the real AST: a set guard refuses the event with EdzedCircuitError and changes "
+        "nothing; once taken, the guard is released on every exit edge (normal return, EventCond resolving to no event, unknown "
+        "event, call-level TypeError, handler error, failed early initialisation) and all other guards are as before; the handler "
+        "runs at most once, with the guard set; early initialisation runs with the guard lifted; a filter veto delivers nothing; "
+        "library handlers let delivery errors escape. Scan obligations: writers of the guard, places where it is lifted.",
+   note="Trusted: pyvc encoding, z3; interface contracts of handlers and init_sblock. The composition 'refused re-entry stops the "
+        "simulation through any chain of blocks' is a textual argument over the two function-level facts (see evidence.unclaimed)."),
  'C14': dict(
    text="Circuit.is_ready, Circuit.findblock, ExtEvent.__init__, ExtEvent.send, check_name, Block.__init__ (naming clause) and Event.send "
         "are executed from the real AST against contracts stating the property: send raises EdzedInvalidState and delivers nothing iff "
